@@ -266,7 +266,9 @@ def h_fetch_app(eng, case):
                 elif sel == 0 and seg < N:
                     script.append(('data',))
                     fb = Component.from_segment(N - 1)
-                    d = enc.make_data(Name.from_str('/obj') + [Component.from_segment(seg)],
+                    # (a versioned object: the segments live one level below the name the application asks for)
+                    base = Name.from_str('/obj/v=7') if case.get('versioned') else Name.from_str('/obj')
+                    d = enc.make_data(base + [Component.from_segment(seg)],
                                       enc.MetaInfo(final_block_id=fb), b'seg%d' % seg)
                     await deliver_data(bytes(d))
                 elif sel == 1:
@@ -404,6 +406,7 @@ def cases(tier, seed):
         cs.append(('fetch_app', {'N': N, 'retry': retry}, {'weight': 3 ** (N + retry), 'split_depth': 3}))
     cs.append(('fetch_app', {'N': 2, 'retry': 1, 'validator': 'rejecting-object'}, {'weight': 9}))
     cs.append(('fetch_app', {'N': None, 'retry': 2}, {'weight': 9}))
+    cs.append(('fetch_app', {'N': 3, 'retry': 1, 'versioned': True}, {'weight': 27, 'split_depth': 3}))
     for k in (1, 2):
         cs.append(('fetch_app', {'N': 3, 'retry': 2 if k == 1 else 1, 'prefetch': k}, {'weight': 30, 'split_depth': 3}))
     cs.append(('fetch_app', {'N': 2, 'retry': 1, 'lp': True}, {'weight': 9}))
